@@ -1,2 +1,2 @@
 import Tup.Drv.Db
-def main : IO Unit := Tup.mainLoop Tup.Drv.Db.handle
+def main : IO Unit := Tup.Drv.Db.mainLoop
